@@ -89,14 +89,17 @@ Proof. destruct a, b; reflexivity. Qed.
 Lemma scalar_cmp_le a b : scalar (cmp_le a b) = true.
 Proof. destruct a, b; reflexivity. Qed.
 
+Lemma scalar_of_num o : scalar (of_num o) = true.
+Proof. destruct o; reflexivity. Qed.
+
 Lemma scalar_binop o a b : scalar (binop_eval o a b) = true.
 Proof. unfold binop_eval. destruct (poisoned a b); [reflexivity|].
   destruct o; try apply scalar_cmp_lt; try apply scalar_cmp_le.
-  - destruct a, b; reflexivity.
-  - destruct a, b; reflexivity.
-  - destruct a, b; reflexivity.
-  - destruct a, b; try reflexivity. unfold num_div. ifs; reflexivity.
-  - destruct a, b; try reflexivity. unfold num_pow. ifs; reflexivity.
+  - destruct a, b; try reflexivity; apply scalar_of_num.
+  - destruct a, b; try reflexivity; apply scalar_of_num.
+  - destruct a, b; try reflexivity; apply scalar_of_num.
+  - destruct a, b; try reflexivity. unfold num_div. ifs; try reflexivity; apply scalar_of_num.
+  - destruct a, b; try reflexivity. unfold num_pow. ifs; try reflexivity; apply scalar_of_num.
   - destruct (veq a b) as [[|]|]; reflexivity.
   - destruct (veq a b) as [[|]|]; reflexivity.
   - unfold and3. destruct a, b; ifs; reflexivity.
@@ -202,7 +205,7 @@ Proof. intros Hi Hk.
   assert (G : aclosed A (match kept with [x] => x | _ => VList kept end) = true).
   { assert (Hkc : forallb (aclosed A) kept = true) by (apply fa_intro; intros x Hx; exact (fa_in _ _ _ Hi (Hk x Hx))).
     destruct kept as [|x [|y r]]; [reflexivity| |exact Hkc]. cbn [forallb] in Hkc. rewrite andb_true_r in Hkc. exact Hkc. }
-  destruct outer; cbn [filter_finish]; try exact G; [apply nth1_closed; exact Hi|reflexivity]. Qed.
+  destruct outer; cbn [filter_finish]; try exact G; [destruct (num_int d); [apply nth1_closed; exact Hi|reflexivity]|reflexivity]. Qed.
 
 Lemma filter_scalar_closed v outer : aclosed A v = true -> aclosed A (filter_scalar v outer) = true.
 Proof. intros H. destruct outer as [|[|]| | | | | | | |]; cbn [filter_scalar]; try reflexivity.
@@ -274,7 +277,8 @@ Proof. intros Hc HS. apply fa_intro. intros d Hd. unfold doms_eval in Hd.
   apply in_flat_map in Hd as ([x dm] & Hnd & Hd). pose proof (fa_flat_map _ _ _ _ Hc Hnd) as Hcd. cbn [fst snd] in *.
   destruct dm as [e|lo hi]; cbn [dom_eval dnames] in *.
   - destruct Hd as [<-|[]]. cbn [snd]. apply dom_values_closed. apply IH; assumption.
-  - destruct (eval cartf f S lo); try (destruct Hd; fail). destruct (eval cartf f S hi); try (destruct Hd; fail).
+  - destruct (eval cartf f S lo) as [| |dlo| | | | | | |]; try (destruct Hd; fail). destruct (eval cartf f S hi) as [| |dhi| | | | | | |]; try (destruct Hd; fail).
+    destruct (num_int dlo); try (destruct Hd; fail). destruct (num_int dhi); try (destruct Hd; fail).
     destruct Hd as [<-|[]]. cbn [snd]. apply range_values_closed. Qed.
 
 Lemma quant_doms_closed f S (ds : list (N * expr))
@@ -558,11 +562,11 @@ Proof. intros Hn HS. split.
 Definition w_f : N := 101%N.
 Definition w_b : N := 102%N.
 Definition w_e : expr := ECall (EName w_f) [].
-Definition w_S (z : Z) : stack := [[(w_f, VFun [] (EName w_b)); (w_b, VNum z)]].
+Definition w_S (z : Z) : stack := [[(w_f, VFun [] (EName w_b)); (w_b, vnum z)]].
 Theorem dynamic_scope_witness :
   names w_e = [w_f] /\ (forall n, In n (names w_e) -> lookup n (w_S 1) = lookup n (w_S 2)) /\
-  eval_spec 5 (w_S 1) w_e = VNum 1 /\ eval_spec 5 (w_S 2) w_e = VNum 2 /\
-  fst (run_impl 5 (w_S 1) w_e) = VNum 1 /\ fst (run_impl 5 (w_S 2) w_e) = VNum 2.
+  eval_spec 5 (w_S 1) w_e = vnum 1 /\ eval_spec 5 (w_S 2) w_e = vnum 2 /\
+  fst (run_impl 5 (w_S 1) w_e) = vnum 1 /\ fst (run_impl 5 (w_S 2) w_e) = vnum 2.
 Proof. split; [reflexivity|]. split; [|vm_compute; repeat split; reflexivity].
   intros n [<-|[]]. reflexivity. Qed.
 
@@ -571,24 +575,24 @@ Proof. split; [reflexivity|]. split; [|vm_compute; repeat split; reflexivity].
    variable of  for vx in [], vy in [1] return vx  is looked up outside; the Spec's product gives [] *)
 Definition l_x : N := 101%N.
 Definition l_y : N := 102%N.
-Definition l_e : expr := EFor [(l_x, DList (EList [])); (l_y, DList (EList [ENum 1]))] (EName l_x).
+Definition l_e : expr := EFor [(l_x, DList (EList [])); (l_y, DList (EList [enum 1]))] (EName l_x).
 Theorem bound_name_leak_witness :
-  fst (run_impl 5 [[(l_x, VNum 1)]] l_e) = VList [VNum 1] /\ fst (run_impl 5 [[(l_x, VNum 2)]] l_e) = VList [VNum 2] /\
-  eval_spec 5 [[(l_x, VNum 1)]] l_e = VList [] /\ eval_spec 5 [[(l_x, VNum 2)]] l_e = VList [].
+  fst (run_impl 5 [[(l_x, vnum 1)]] l_e) = VList [vnum 1] /\ fst (run_impl 5 [[(l_x, vnum 2)]] l_e) = VList [vnum 2] /\
+  eval_spec 5 [[(l_x, vnum 1)]] l_e = VList [] /\ eval_spec 5 [[(l_x, vnum 2)]] l_e = VList [].
 Proof. vm_compute. repeat split; reflexivity. Qed.
 
 (* non-vacuity: an expression with a filter, a for, a function literal called in place and a function from the
    stack; stacks with different unrelated bindings (also a function value whose body is over A) *)
 Definition x_e : expr :=
-  EFor [(103%N, DList (EFilter (EList [ENum 1; ENum 2; ENum 3]) (EBin Gt (EName n_item) (EName 101%N))))]
+  EFor [(103%N, DList (EFilter (EList [enum 1; enum 2; enum 3]) (EBin Gt (EName n_item) (EName 101%N))))]
        (EBin Add (ECall (EName 102%N) [EName 103%N]) (ECall (EFun [(104%N, T.TS T.SAny)] (EBin Mul (EName 104%N) (EName 101%N))) [EName 103%N])).
-Definition x_S : stack := [[(101%N, VNum 1); (102%N, VFun [(104%N, T.TS T.SAny)] (EBin Sub (EName 104%N) (EName 101%N)))]].
-Definition x_S' : stack := [(200%N, VFun [] (EName 201%N))] :: [(101%N, VNum 1); (201%N, VStr [65%N])] :: [(102%N, VFun [(104%N, T.TS T.SAny)] (EBin Sub (EName 104%N) (EName 101%N)))] :: [[(101%N, VNum 9)]].
+Definition x_S : stack := [[(101%N, vnum 1); (102%N, VFun [(104%N, T.TS T.SAny)] (EBin Sub (EName 104%N) (EName 101%N)))]].
+Definition x_S' : stack := [(200%N, VFun [] (EName 201%N))] :: [(101%N, vnum 1); (201%N, VStr [65%N])] :: [(102%N, VFun [(104%N, T.TS T.SAny)] (EBin Sub (EName 104%N) (EName 101%N)))] :: [[(101%N, vnum 9)]].
 Example nonvacuous :
   (forall n, In n (names x_e) -> in_names x_e n = true) /\
   (forall n v, in_names x_e n = true -> lookup n x_S = Some v -> aclosed (in_names x_e) v = true) /\
   (forall n, in_names x_e n = true -> lookup n x_S = lookup n x_S') /\ x_S <> x_S' /\
-  fst (run_impl 20 x_S x_e) = VList [VNum 3; VNum 5] /\ fst (run_impl 20 x_S' x_e) = VList [VNum 3; VNum 5].
+  fst (run_impl 20 x_S x_e) = VList [vnum 3; vnum 5] /\ fst (run_impl 20 x_S' x_e) = VList [vnum 3; vnum 5].
 Proof. split; [intros n; apply in_names_spec|]. split; [apply sclosed_lclosed; reflexivity|]. split.
   - intros n Hn. apply in_names_spec in Hn.
     assert (F : Forall (fun n => lookup n x_S = lookup n x_S') (names x_e)) by (repeat constructor).
